@@ -219,24 +219,37 @@ example : Txt.readDivisor (Txt.writeText (Txt.writeDivisor [['a', ' ', 'b'], ['c
 example : Txt.readGraph (Txt.writeText (Txt.writeGraph [] [])) = some ([], []) :=
   txt_graph_file_roundtrip [] [] (by simp) (by simp)
 
-/-- **truncated JSON files**: the text `to_json` writes for any graph, divisor, orientation or
-    firing script (`json.dump(obj.to_dict(), indent=4)`: any names — escaped as Python escapes
-    them —, any integers, any sizes) is a dict, and every proper non-empty prefix of it ends inside
-    a bracket or a string: it is not a complete JSON document, so `json.load` rejects it and
-    `read_json` returns `None`; the complete text is closed.  (That CPython's parser rejects a
-    text that is empty or still open at its end is the assumption this rests on; it is compared
-    with `json.loads` on generated prefixes and damaged texts in every run.) -/
+/-- **truncated JSON files**: the text `json.dump(d, f, indent=k)` writes for *any* dict `d` of the
+    value shapes the library serialises (strings — any names, escaped as Python escapes them —,
+    integers of any size, lists, dicts with string keys), for any indent width and any key order,
+    has the property that every proper non-empty prefix ends inside a bracket or a string: it is
+    not a complete JSON document, so `json.load` rejects it and `read_json` returns `None`; the
+    complete text is closed.  (That CPython's parser rejects a text that is empty or still open at
+    its end is the assumption this rests on; it is compared with `json.loads` on generated prefixes
+    and damaged texts in every run.) -/
+theorem json_truncation_open_any (ind : Nat) (l : List (JsonText.Str × JsonText.JV)) (p : JsonText.Str)
+    (hp : p <+: JsonText.dumps ind (.obj l)) (hne : p ≠ []) (hproper : p ≠ JsonText.dumps ind (.obj l)) :
+    JsonText.openAtEnd p = true ∧ JsonText.openAtEnd (JsonText.dumps ind (.obj l)) = false :=
+  ⟨JsonText.truncated_dict_open ind l p hp hne hproper, JsonText.complete_dict_closed ind l⟩
+
+/-- … in particular for the four `to_dict` shapes as the library writes them (`indent=4`) -/
 theorem json_truncation_open (v : JsonText.JV) (hv : JsonText.IsFileJV v) (p : JsonText.Str)
-    (hp : p <+: JsonText.dumps v) (hne : p ≠ []) (hproper : p ≠ JsonText.dumps v) :
-    JsonText.openAtEnd p = true ∧ JsonText.openAtEnd (JsonText.dumps v) = false := by
-  cases hv <;> exact ⟨JsonText.truncated_dict_open _ p hp hne hproper, JsonText.complete_dict_closed _⟩
+    (hp : p <+: JsonText.dumps 4 v) (hne : p ≠ []) (hproper : p ≠ JsonText.dumps 4 v) :
+    JsonText.openAtEnd p = true ∧ JsonText.openAtEnd (JsonText.dumps 4 v) = false := by
+  cases hv <;> exact json_truncation_open_any 4 _ p hp hne hproper
+
+/-- the written JSON text is pure ASCII (`ensure_ascii`), whatever the vertex names: every
+    byte prefix of the file is a character prefix of the text, so the truncation clause about
+    byte-prefix truncations follows from `json_truncation_open` -/
+theorem json_text_ascii (ind : Nat) (v : JsonText.JV) : ∀ c ∈ JsonText.dumps ind v, c.toNat < 128 :=
+  JsonText.dumps_ascii ind v
 
 /-- non-vacuity: the file of the empty graph and its first character as a proper prefix; the
     scanner sees through escaped quotes and brackets inside names -/
-example : JsonText.openAtEnd ['{'] = true ∧ JsonText.openAtEnd (JsonText.dumps (JsonText.graphJV [] [])) = false :=
+example : JsonText.openAtEnd ['{'] = true ∧ JsonText.openAtEnd (JsonText.dumps 4 (JsonText.graphJV [] [])) = false :=
   json_truncation_open _ (.graph [] []) ['{'] ⟨_, rfl⟩ (by simp) (by decide +kernel)
 
-example : JsonText.openAtEnd (JsonText.dumps (JsonText.divisorJV [['a'], ['"', ']', 'é']] [(['a'], ['"', ']', 'é'], 2)]
+example : JsonText.openAtEnd (JsonText.dumps 4 (JsonText.divisorJV [['a'], ['"', ']', 'é']] [(['a'], ['"', ']', 'é'], 2)]
     [(['a'], -3), (['"', ']', 'é'], 7)])) = false := by decide +kernel
 
 /-- the edge records `to_txt` writes for a graph whose vertex `v` is called `nm v` -/
